@@ -47,6 +47,7 @@ type IPFSLog struct {
 }
 
 func (l *IPFSLog) Len() int {
+	verifBeforeLock(l, false, "Len")
 	l.lock.RLock()
 	defer l.lock.RUnlock()
 
